@@ -263,5 +263,198 @@ def firLoop (terms : List (Nat × α)) : List α → List α → List α
 def firRun [DecidableEq α] (b : List α) (xs : List α) : List α :=
   firLoop (natTerms 0 b) (List.replicate (b.length - 1) 0) xs
 
+
+/-! ### bank histories: `CascadeFilter` / `ParallelFilter` are mutable python lists
+
+    class FilterList(list, …):
+      callables = [(filt if callable(filt) else LinearFilter(filt)) for filt in self]    # on every use
+
+    A history is a sequence of list operations and uses on the objects of a small heap: leaves
+    (filters; a raw coefficient list is cast to `LinearFilter` on every use) and banks, whose
+    members are references (indices) into the heap — the same object may be a member of several
+    banks (a nested bank changed through an inner reference changes every bank that holds it).
+    A use (`freq_response`, `numpoly`/`denpoly`, `is_lti`, calling the bank) reads the bank AS IT IS
+    NOW: it is evaluated on the snapshot (the tree reachable from the bank at that moment) and
+    never changes the heap. -/
+
+/-- python's index rule of `l[i]` (`none` = IndexError) -/
+def pyIndex (n : Nat) (i : Int) : Option Nat :=
+  let k := if i < 0 then i + (n : Int) else i
+  if 0 ≤ k ∧ k < (n : Int) then some k.toNat else none
+
+/-- python's clamping of a slice bound / of the position of `list.insert` -/
+def pyClamp (n : Nat) (i : Int) : Nat :=
+  let k := if i < 0 then i + (n : Int) else i
+  if k < 0 then 0 else if (n : Int) < k then n else k.toNat
+
+/-- `slice(i, j).indices(n)` for step 1, as the half-open range that `l[i:j] = …` replaces -/
+def pyBounds (n : Nat) (i j : Option Int) : Nat × Nat :=
+  let lo := match i with | none => 0 | some i => pyClamp n i
+  let hi := match j with | none => n | some j => pyClamp n j
+  (lo, if hi < lo then lo else hi)
+
+/-- the in-place operations of a python list (members are heap references) -/
+inductive ListOp where
+  | setitem (i : Int) (x : Nat)                         -- l[i] = x
+  | append (x : Nat)
+  | insert (i : Int) (x : Nat)
+  | extend (xs : List Nat)
+  | iadd (xs : List Nat)                                -- l += xs   (list.__iadd__, same object)
+  | imul (k : Int)                                      -- l *= k  (NOT in place here, see `apply`)
+  | pop (i : Option Int)
+  | delitem (i : Int)                                   -- del l[i]
+  | setslice (i j : Option Int) (xs : List Nat)         -- l[i:j] = xs
+  | delslice (i j : Option Int)                         -- del l[i:j]
+  | reverse
+  | clear
+  | swap (i j : Int)                                    -- l[i], l[j] = l[j], l[i]
+
+inductive ListRes where
+  | ok
+  | popped (x : Nat)
+  | fresh (ms : List Nat)                               -- a new list object with these members
+  | indexError
+
+def ListOp.apply : ListOp → List Nat → List Nat × ListRes
+  | .setitem i x, l => match pyIndex l.length i with
+    | none => (l, .indexError)
+    | some k => (l.set k x, .ok)
+  | .append x, l => (l ++ [x], .ok)
+  | .insert i x, l => let k := pyClamp l.length i; (l.take k ++ x :: l.drop k, .ok)
+  | .extend xs, l => (l ++ xs, .ok)
+  | .iadd xs, l => (l ++ xs, .ok)
+  -- `FilterList` defines `__mul__`, so CPython resolves `bank *= k` to `bank = bank.__mul__(k)`
+  -- (a python-level `__mul__` fills the number slot, tried before list's sequence in-place slot):
+  -- a NEW bank is bound to the name, the list object itself is unchanged.  (`+=` is in place.)
+  | .imul k, l => (l, .fresh (if k ≤ 0 then [] else (List.replicate k.toNat l).flatten))
+  | .pop none, l => match l.getLast? with
+    | none => (l, .indexError)
+    | some x => (l.dropLast, .popped x)
+  | .pop (some i), l => match pyIndex l.length i with
+    | none => (l, .indexError)
+    | some k => (l.eraseIdx k, .popped (l.getD k 0))
+  | .delitem i, l => match pyIndex l.length i with
+    | none => (l, .indexError)
+    | some k => (l.eraseIdx k, .ok)
+  | .setslice i j xs, l => let (lo, hi) := pyBounds l.length i j; (l.take lo ++ xs ++ l.drop hi, .ok)
+  | .delslice i j, l => let (lo, hi) := pyBounds l.length i j; (l.take lo ++ l.drop hi, .ok)
+  | .reverse, l => (l.reverse, .ok)
+  | .clear, _ => ([], .ok)
+  | .swap i j, l => match pyIndex l.length i, pyIndex l.length j with
+    | some a, some b => ((l.set a (l.getD b 0)).set b (l.getD a 0), .ok)
+    | _, _ => (l, .indexError)
+
+/-- an object of the heap -/
+inductive Obj (α : Type) where
+  | leaf (b a : List α)                                 -- a filter (or a raw coefficient list, a = [1])
+  | bank (casc : Bool) (members : List Nat)             -- CascadeFilter / ParallelFilter
+
+/-- the tree reachable from object `i` now (`none`: dangling reference or no fuel left) -/
+def snap (heap : List (Obj α)) : Nat → Nat → Option (Bank α)
+  | 0, _ => none
+  | fuel + 1, i =>
+    match heap[i]? with
+    | none => none
+    | some (.leaf b a) => some (.filt b a)
+    | some (.bank c ms) =>
+      match ms.mapM (snap heap fuel) with
+      | none => none
+      | some ts => some (if c then .cascade ts else .parallel ts)
+
+/-- `Stream + Stream` -/
+def zipAdd (xs ys : List α) : List α := List.zipWith (· + ·) xs ys
+
+mutual
+/-- `bank(xs, zero=0)` for banks whose leaves are FIR (`a = [1]`); `fir b xs` is the leaf's run.
+    `none` = a leaf outside the modelled class. -/
+def Bank.run [DecidableEq α] (fir : List α → List α → List α) : Bank α → List α → Option (List α)
+  | .filt b a, xs => if a = [1] then some (fir b xs) else none
+  | .cascade ms, xs => Bank.runSeq fir ms xs            -- reduce(lambda data, filt: filt(data), callables, xs)
+  | .parallel ms, xs =>
+    match Bank.runAll fir ms xs with
+    | none => none
+    | some [] => some (xs.map fun _ => 0)               -- Stream(zero for _ in xs)
+    | some (y :: ys) => some (ys.foldl zipAdd y)        -- reduce(operator.add, …)
+def Bank.runSeq [DecidableEq α] (fir : List α → List α → List α) : List (Bank α) → List α → Option (List α)
+  | [], xs => some xs
+  | m :: ms, xs => match Bank.run fir m xs with
+    | none => none
+    | some ys => Bank.runSeq fir ms ys
+def Bank.runAll [DecidableEq α] (fir : List α → List α → List α) : List (Bank α) → List α → Option (List (List α))
+  | [], _ => some []
+  | m :: ms, xs => match Bank.run fir m xs, Bank.runAll fir ms xs with
+    | some y, some ys => some (y :: ys)
+    | _, _ => none
+end
+
+/-- a use of a bank; `φ` is the type of frequencies -/
+inductive Query (φ α : Type) where
+  | freq (fs : List φ)                                  -- bank.freq_response(fs)
+  | polys (fs : List φ)                                 -- bank.numpoly(z) / bank.denpoly(z), z = exp(-1j*f)
+  | isLti                                               -- bank.is_lti()
+  | call (xs : List α)                                  -- list(bank(xs, zero=0))
+
+inductive HOp (φ α : Type) where
+  | upd (t : Nat) (op : ListOp)
+  | use (t : Nat) (q : Query φ α)
+
+/-- what one step of a history shows -/
+inductive Obs (α : Type) where
+  | members (ms : List Nat)                             -- the list after the operation
+  | popped (x : Nat) (ms : List Nat)
+  | fresh (new ms : List Nat)                           -- members of the new object, of the old one
+  | indexError
+  | resp (rs : List (Resp α))
+  | bool (b : Bool)
+  | out (ys : Option (List α))
+  | stuck                                               -- not a bank / dangling reference
+deriving DecidableEq
+
+/-- a use, evaluated on a tree: `R w tree` the response, `fir` the leaf run -/
+def answerTree [DecidableEq α] {φ : Type} (pt : φ → α) (R : α → Bank α → Resp α)
+    (fir : List α → List α → List α) (tree : Bank α) : Query φ α → Obs α
+  | .freq fs => .resp (elementwise (fun f => R (pt f) tree) fs)
+  | .polys fs => .resp (elementwise (fun f => R (pt f) tree) fs)
+  | .isLti => .bool true
+  | .call xs => .out (Bank.run fir tree xs)
+
+/-- a use of object `t` of the heap: evaluated on the snapshot of `t` -/
+def answer [DecidableEq α] {φ : Type} (pt : φ → α) (R : α → Bank α → Resp α)
+    (fir : List α → List α → List α) (heap : List (Obj α)) (t : Nat) (q : Query φ α) : Obs α :=
+  match snap heap (heap.length + 1) t with
+  | none => .stuck
+  | some tree => answerTree pt R fir tree q
+
+def stepH [DecidableEq α] {φ : Type} (pt : φ → α) (R : α → Bank α → Resp α)
+    (fir : List α → List α → List α) (heap : List (Obj α)) : HOp φ α → List (Obj α) × Obs α
+  | .upd t op =>
+    match heap[t]? with
+    | some (.bank c ms) =>
+      let r := op.apply ms
+      (heap.set t (.bank c r.1),
+        match r.2 with
+        | .ok => .members r.1
+        | .popped x => .popped x r.1
+        | .fresh new => .fresh new r.1
+        | .indexError => .indexError)
+    | _ => (heap, .stuck)
+  | .use t q => (heap, answer pt R fir heap t q)
+
+/-- the observations of a history, one per step -/
+def runH [DecidableEq α] {φ : Type} (pt : φ → α) (R : α → Bank α → Resp α)
+    (fir : List α → List α → List α) (heap : List (Obj α)) : List (HOp φ α) → List (Obs α)
+  | [] => []
+  | op :: ops => (stepH pt R fir heap op).2 :: runH pt R fir (stepH pt R fir heap op).1 ops
+
+/-- the heap after a history -/
+def finalHeap [DecidableEq α] {φ : Type} (pt : φ → α) (R : α → Bank α → Resp α)
+    (fir : List α → List α → List α) (heap : List (Obj α)) : List (HOp φ α) → List (Obj α)
+  | [] => heap
+  | op :: ops => finalHeap pt R fir (stepH pt R fir heap op).1 ops
+
+/-- the model of a history: uses evaluated as coded (`Bank.resp`, the FIR loop) -/
+def histModel [DecidableEq α] {φ : Type} (pt : φ → α) (heap : List (Obj α)) (ops : List (HOp φ α)) :
+    List (Obs α) := runH pt (fun w t => Bank.resp w t) firRun heap ops
+
 end generic
 end ALV.C12
